@@ -81,14 +81,14 @@ theorem rk23Solve_inv {σ : Type} (P : R23Params α n) (f : Rhs α n) (ob : Obs 
   unfold rk23Solve at h
   have hcnt := startMeter_counted f x0 y0 P.posneg firstStep (fun f' k1 =>
     Gen.Common.hinit (f := f') (atol := P.atol) (rtol := P.rtol) (y := y0) (f0 := k1) (hmax := hmaxArg) (posneg := P.posneg)
-      (x := x0) (iord := 3)) (fun _ _ => hinit_calls ..)
+      (x := x0) (iord := Gen.Static.rk23_hinitOrder)) (fun _ _ => hinit_calls ..)
   have hp := startMeter_pairs f x0 y0 P.posneg firstStep (fun f' k1 =>
     Gen.Common.hinit (f := f') (atol := P.atol) (rtol := P.rtol) (y := y0) (f0 := k1) (hmax := hmaxArg) (posneg := P.posneg)
-      (x := x0) (iord := 3))
+      (x := x0) (iord := Gen.Static.rk23_hinitOrder))
   have hm := Meter.counted_cb hcnt x0 x0 y0 #[]
   have hc0 : ChainTo ((startMeter f x0 y0 P.posneg firstStep (fun f' k1 =>
       Gen.Common.hinit (f := f') (atol := P.atol) (rtol := P.rtol) (y := y0) (f0 := k1) (hmax := hmaxArg) (posneg := P.posneg)
-        (x := x0) (iord := 3))).2.2.cb x0 x0 y0 #[]).pairs x0 := by
+        (x := x0) (iord := Gen.Static.rk23_hinitOrder))).2.2.cb x0 x0 y0 #[]).pairs x0 := by
     rw [Meter.pairs_cb, hp.1]; exact ChainTo.init x0
   unfold rk23Start at h
   dsimp only at h
